@@ -10,9 +10,13 @@ KIND = re.compile(r"N(\([^;]*\)|[^;]*)")
 
 
 def kinds(body):
-    """`o=N5;N(p 1 2);C` -> `NNC`; other bodies unchanged."""
+    """`o=N5;N(p 1 2);C` -> `NNC`; other bodies unchanged (time-suite suffix ` live= tm= t=` dropped)."""
     if not body.startswith("o="):
         return body
+    if " live=" in body:
+        from .. import timegen as tg
+        outs, _ = tg.parse_suffix(body)
+        return "o=" + "".join(t[0] for t in outs if t)
     out = []
     for tok in body[2:].split(";"):
         if tok:
@@ -51,19 +55,46 @@ def gen_cases(rng, tier, variants, n_random):
 class C01(Prop):
     pid = "C01"
     lean_module = "RxModel.Props.C01"
+    extra_modules = ("RxModel.Props.C01C",)
     design_ref = "DESIGN.md §6 C01"
     rule = ("random pipelines (depth<=5, <=3 hot subjects, cold sources incl. create with malformed scripts, "
             "all single-input variants, start_with, the 8 two-input combinators; local and _threads) x event "
             "scripts with post-terminal events and repeated terminals; plus every operator variant at depth 1 "
             "with malformed tails. Compared under the kind projection (N/E/C per event). Oracle on the "
             "implementation alone: the whole probe log matches N*(E|C)?. non-trivial = probe received something.")
-    assumptions = ["scheduler-using operators, merge_all, share, group_by are covered by their own suites "
-                   "(the Lean theorem C01_grammar quantifies over the Pipe type of RxModel/Pipe/World.lean)"]
+    assumptions = ["merge_all, share, group_by are covered by their own suites (the Lean theorem C01_grammar "
+                   "quantifies over the Pipe type of RxModel/Pipe/World.lean, C01C_chain_grammar over the chain "
+                   "worlds of RxModel/Sched/Chain.lean)"]
     modelled_not_verified = "all Rust code; Rust move semantics is what makes un-shared observers unreachable after their terminal"
 
     def cases(self, tier, seed):
         rng = random.Random(seed)
-        return gen_cases(rng, tier, pg.single_variants(3), 20000 if tier == "quick" else 200000)
+        out = gen_cases(rng, tier, pg.single_variants(3), 20000 if tier == "quick" else 200000)
+        # chains with scheduler-using operators and time / async sources (theorem C01C_chain_grammar over the
+        # chain model): the populations of C07, C08, C09 and C16 plus hot chains with malformed tails
+        import importlib
+        from .. import timegen as tg
+        for name in ("c07", "c08", "c09", "c16"):
+            try:
+                cs = importlib.import_module(f"vlib.props.{name}").PROP.cases("quick", seed)
+            except Exception as ex:            # pragma: no cover
+                print(f"note: C01 skips the {name} population: {ex}")
+                continue
+            cs = [c for c in cs if c.suite == "time"]
+            rng.shuffle(cs)
+            for c in cs[: 1500 if tier == "quick" else 6000]:
+                c.meta = {"kind": "time-" + name}
+                out.append(c)
+        for i in range(3000 if tier == "quick" else 30000):
+            pipe = tg.chain(rng, ["hot", "0"], list(tg.TIME_OPS), rng.randint(1, 3), p_sync=0.35)
+            evs = tg.events(rng, rng.randint(3, 14), hot=True, mode="mixed" if i % 2 else "fifo", unsub_p=0.03,
+                            term_p=0.3)
+            # post-terminal events through the subject
+            for _ in range(rng.randint(0, 3)):
+                evs.insert(rng.randint(1, len(evs)), ["emit", "0", rng.choice([["n", "9"], "c", ["e", "5"]])])
+            out.append(Case("time", rng.choice(["local", "threads"]), [("pipe", [pipe])], evs,
+                            {"kind": "time-malformed"}))
+        return tg.with_units(seed, out)
 
     def project(self, body):
         return kinds(body)
